@@ -9,7 +9,7 @@ variable {σ : Type} {B : LockOps σ} {Ok : σ → Prop} {keyOk : Key → Prop}
 
 /-- the keys an action names are in the backend's key universe -/
 def Act.keysIn (keyOk : Key → Prop) : Act → Prop
-  | .enter _ key _ _ => keyOk key
+  | .enter _ _ key _ _ => keyOk key
   | _ => True
 
 structure Inv (B : LockOps σ) (Ok : σ → Prop) (keyOk : Key → Prop) (s : LockSt σ) : Prop where
@@ -47,9 +47,21 @@ theorem inv_start {s : LockSt σ} (h : Start B Ok s) : Inv B Ok keyOk s where
   holds := by intro t key tok dl ht; rw [h.2.2 t] at ht; simp at ht
   owned := by intro key v dl ho; rw [h.2.1 key] at ho; simp at ho
 
+/-- the invariant reads only the store, the activations and the identifier counter -/
+theorem inv_of_same_core {s s' : LockSt σ} (h : Inv B Ok keyOk s)
+    (hbe : s'.be = s.be) (htasks : s'.tasks = s.tasks) (hnext : s'.next = s.next) :
+    Inv B Ok keyOk s' := by
+  obtain ⟨ok, fresh, distinct, keys, holds, owned⟩ := h
+  refine ⟨by rw [hbe]; exact ok, ?_, ?_, ?_, ?_, ?_⟩
+  · intro t n; rw [htasks, hnext]; exact fresh t n
+  · intro t1 t2 n; rw [htasks]; exact distinct t1 t2 n
+  · intro t key ttl wait tok; rw [htasks]; exact keys t key ttl wait tok
+  · intro t key tok dl; rw [htasks, hbe]; exact holds t key tok dl
+  · intro key v dl; rw [htasks, hbe]; exact owned key v dl
+
 theorem inv_enter {s : LockSt σ} (h : Inv B Ok keyOk s)
-    (t key : Nat) (ttl : Option Nat) (wait : Bool) (hk : keyOk key) :
-    Inv B Ok keyOk (step B s (.enter t key ttl wait)).1 := by
+    (t th key : Nat) (ttl : Option Nat) (wait : Bool) (hk : keyOk key) :
+    Inv B Ok keyOk (step B s (.enter t th key ttl wait)).1 := by
   unfold step
   by_cases hb : (s.tasks t).busy
   · simp only [hb, if_true]; exact h
@@ -144,17 +156,19 @@ theorem inv_retire {s : LockSt σ} (h : Inv B Ok keyOk s) (t : Nat) (x : TState)
     have : t0 ≠ t := by intro e; rw [e] at ht0; exact hnot _ _ _ ht0
     simp only [this, if_false]; exact ht0
 
-theorem inv_attempt (C : LockContract B Ok keyOk) {s : LockSt σ} (h : Inv B Ok keyOk s) (t : Nat) :
-    Inv B Ok keyOk (step B s (.attempt t)).1 := by
-  simp only [step]
-  cases hts : s.tasks t with
-  | idle => exact h
-  | failed => exact h
-  | done => exact h
-  | inside _ _ _ => exact h
-  | trying key ttl wait tok =>
-    have hk : keyOk key := h.keys t key ttl wait tok hts
-    simp only
+theorem inv_attemptCore (C : LockContract B Ok keyOk) {s : LockSt σ} (h : Inv B Ok keyOk s) (t : Nat)
+    (key : Nat) (ttl : Option Nat) (wait : Bool) (tok : Nat) (hl : Health)
+    (hts : s.tasks t = .trying key ttl wait tok) :
+    Inv B Ok keyOk (attemptCore B s t key ttl wait tok hl).1 := by
+  have hk : keyOk key := h.keys t key ttl wait tok hts
+  unfold attemptCore
+  cases hsl : hl.setLock with
+  | false =>
+    -- the command is disabled: nothing reaches the backend, the caller walks in without a lock
+    simp only [Bool.false_eq_true, if_false]
+    exact inv_retire h t (.unguarded key) rfl (by intro k' tk dl; rw [hts]; simp)
+  | true =>
+    simp only [if_true]
     cases hown : B.owner s.be key with
     | some o =>
       -- a live lock is there: `set_lock` answers False and changes nothing
@@ -167,11 +181,18 @@ theorem inv_attempt (C : LockContract B Ok keyOk) {s : LockSt σ} (h : Inv B Ok 
       have h1 := inv_of_same_view h _ (C.setLock_ok s.be key (ownTok tok) ttl h.ok hk)
         (C.setLock_now s.be key (ownTok tok) ttl) hview
       simp only [hres, Bool.false_eq_true, if_false]
-      cases wait with
-      | true => exact h1
+      cases hl.ping with
       | false =>
         simp only [Bool.false_eq_true, if_false]
-        exact inv_retire h1 t .failed rfl (by intro k' tk dl; show s.tasks t ≠ _; rw [hts]; simp)
+        exact inv_retire h1 t (.unguarded key) rfl
+          (by intro k' tk dl; show s.tasks t ≠ _; rw [hts]; simp)
+      | true =>
+        simp only [if_true]
+        cases wait with
+        | true => exact h1
+        | false =>
+          simp only [Bool.false_eq_true, if_false]
+          exact inv_retire h1 t .failed rfl (by intro k' tk dl; show s.tasks t ≠ _; rw [hts]; simp)
     | none =>
       -- no live lock: `set_lock` answers True and the caller owns the key
       obtain ⟨hres, hnew⟩ := C.setLock_free s.be key (ownTok tok) ttl h.ok hk hown
@@ -229,6 +250,17 @@ theorem inv_attempt (C : LockContract B Ok keyOk) {s : LockSt σ} (h : Inv B Ok 
           have : t0 ≠ t := by intro e; rw [e, hts] at ht0; simp at ht0
           simp only [this, if_false]; exact ht0
 
+theorem inv_attempt (C : LockContract B Ok keyOk) {s : LockSt σ} (h : Inv B Ok keyOk s) (t : Nat) :
+    Inv B Ok keyOk (step B s (.attempt t)).1 := by
+  simp only [step]
+  cases hts : s.tasks t with
+  | idle => exact h
+  | failed => exact h
+  | done => exact h
+  | inside _ _ _ => exact h
+  | unguarded _ => exact h
+  | trying key ttl wait tok => exact inv_attemptCore C h t key ttl wait tok _ hts
+
 theorem inv_leave (C : LockContract B Ok keyOk) {s : LockSt σ} (h : Inv B Ok keyOk s) (t : Nat)
     (how : How) : Inv B Ok keyOk (step B s (.leave t how)).1 := by
   simp only [step]
@@ -237,6 +269,8 @@ theorem inv_leave (C : LockContract B Ok keyOk) {s : LockSt σ} (h : Inv B Ok ke
   | failed => exact h
   | done => exact h
   | trying _ _ _ _ => exact h
+  | unguarded key =>
+    exact inv_retire h t .done rfl (by intro k' tk dl; rw [hts]; simp)
   | inside key tok dl =>
     simp only
     have hnow := C.unlock_now s.be key (ownTok tok)
@@ -325,6 +359,7 @@ theorem inv_giveUp {s : LockSt σ} (h : Inv B Ok keyOk s) (t : Nat) :
   | failed => exact h
   | done => exact h
   | inside _ _ _ => exact h
+  | unguarded _ => exact h
   | trying key ttl wait tok =>
     exact inv_retire h t .failed rfl (by intro k' tk dl; rw [hts]; simp)
 
@@ -386,7 +421,7 @@ theorem inv_purge (C : LockContract B Ok keyOk) {s : LockSt σ} (h : Inv B Ok ke
 theorem inv_step (C : LockContract B Ok keyOk) {s : LockSt σ} (h : Inv B Ok keyOk s) (a : Act)
     (ha : a.keysIn keyOk) : Inv B Ok keyOk (step B s a).1 := by
   cases a with
-  | enter t key ttl wait => exact inv_enter h t key ttl wait ha
+  | enter t th key ttl wait => exact inv_enter h t th key ttl wait ha
   | attempt t => exact inv_attempt C h t
   | leave t how => exact inv_leave C h t how
   | giveUp t => exact inv_giveUp h t
@@ -394,6 +429,14 @@ theorem inv_step (C : LockContract B Ok keyOk) {s : LockSt σ} (h : Inv B Ok key
   | foreignUnlock key n => exact inv_foreignUnlock C h key n
   | probe key => exact inv_probe C h key
   | purge => exact inv_purge C h
+  | setHealth b hl => exact inv_of_same_core h rfl rfl rfl
+  | txBegin th mode => exact inv_of_same_core h rfl rfl rfl
+  | txSet th k v =>
+    simp only [step]
+    cases s.tx th <;> exact inv_of_same_core h rfl rfl rfl
+  | txEnd th c =>
+    simp only [step]
+    cases s.tx th <;> exact inv_of_same_core h rfl rfl rfl
 
 theorem inv_run (C : LockContract B Ok keyOk) {s : LockSt σ} (h : Inv B Ok keyOk s)
     (tr : List Act) (htr : ∀ a ∈ tr, a.keysIn keyOk) : Inv B Ok keyOk (run B s tr) := by
